@@ -106,7 +106,8 @@ def finalJson (s : State) (keys : List Nat) : Json :=
     ("arrived", .arr (keys.map (fun (k : Nat) => Json.arr #[Json.num k, natList (s.arrived k)])).toArray),
     ("started", .arr (keys.map (fun (k : Nat) => Json.arr #[Json.num k, natList (s.started k)])).toArray),
     ("processed", .arr (keys.map (fun (k : Nat) => Json.arr #[Json.num k, natList (s.processed k)])).toArray),
-    ("failed", natList (keys.filter (fun k => s.failedK k)))]
+    ("failed", natList (keys.filter (fun k => s.failedK k))),
+    ("dropped", natList (keys.filter (fun k => !(s.dropped k).isEmpty)))]
 
 def reject (i : Nat) (reason : String) (lab : Json) (s : State) (keys : List Nat) : Json :=
   ok (Json.mkObj [("accepted", .bool false), ("index", .num i), ("reason", .str reason),
@@ -157,6 +158,15 @@ def handle : DrvHandler := fun op args =>
   | "C01.trace", [cfg, labels] => do
       let lim ← limitOf? cfg
       replay step (init lim) [] 0 (← jArr? labels)
+  | "C01.key", [r] => do
+      -- {"bookmark": b, "uid": s|null, "kind": …, "apiVersion": …, "name": …, "namespace": …, "creationTimestamp": …}
+      let b ← jBool? (← jField? r "bookmark")
+      let f := fun (n : String) => do jOpt? jStr? (← jField? r n)
+      let rid : RawId := ⟨b, ← f "uid", ← f "kind", ← f "apiVersion", ← f "name", ← f "namespace",
+                          ← f "creationTimestamp"⟩
+      match keyOf rid with
+      | none => some (ok .null)
+      | some parts => some (ok (.str ("//".intercalate parts)))
   | "C01.buggy", [cfg, labels] => do
       let lim ← limitOf? cfg
       replay stepBuggy (init lim) [] 0 (← jArr? labels)
